@@ -459,7 +459,8 @@ class ScaledInteger(HasUnit, DataType):
     def validate(self, value, previous=None):
         # convert
         result = self(value)
-        if self.min - self.scale < value < self.max + self.scale:
+        # (min - scale / max + scale may not be representable: a value within the limits is always valid)
+        if self.min <= value <= self.max or self.min - self.scale < value < self.max + self.scale:
             # silently clamp when outside by not more than self.scale
             return clamp(self(self.min), result, self(self.max))
         raise RangeError(f'{value:.14g} must be between between {self.min:g} and {self.max:g}')
